@@ -14,7 +14,7 @@ func init() {
 		Explain: "Decided clauses: R1 on an unsafe method the final c.Next() is unreachable once any one of the gates is removed (origin/referer check passed, extractor succeeded, token non-empty, " +
 			"cookie comparison or cookie extractor, token found in the store), and a single-use token is deleted before Next; R2 a failing session backend yields `nil` (reject) and the storage manager returns only what the backend returned; " +
 			"R3 the operands matched against trusted origins are origin-shaped (lower-cased Origin header, scheme+\"://\"+host, normalizeOrigin) — never a full URL; " +
-			"R4 on safe methods every path to Next creates/extends the token and updates the cookie, with a token that is storage-confirmed or freshly generated; R5 origin and referer checks agree on their actions. " +
+			"R4 on safe methods every path to Next creates/extends the token and updates the cookie, with a token that is storage-confirmed or freshly generated; R5 origin and referer checks agree on their actions; R6 a session fetched from the session store and changed (token set or deleted) is saved on every path to return. " +
 			"Not decided: token lifetime over request histories, url.Parse semantics, session backend behaviour, the wildcard split arithmetic.",
 		Assume: []string{"the switch on c.Method() is lowered to an == chain by go/ssa", "ErrorHandler results are returned (not ignored)"},
 		Run:    runC16,
@@ -461,5 +461,33 @@ func runC16(r *Run) {
 		if len(onlyA)+len(onlyB) == 0 {
 			r.ok("originMatchesHost≡refererMatchesHost", r.fpos(r.Fn(csrfPkg, "originMatchesHost")), "equal action sets: "+actionList(a))
 		}
+	})
+
+	r.rule("R6", "a session fetched from the store and changed is saved before the function returns (E1 pairing): otherwise issuing, consuming or deleting a token is not persisted", func() {
+		n := 0
+		r.P.AllFuncs(csrfPkg, func(f *ssa.Function) {
+			for _, c := range callsIn(f, false) {
+				if !strings.HasSuffix(c.Name, "session.Session).Set") && !strings.HasSuffix(c.Name, "session.Session).Delete") {
+					continue
+				}
+				recv := c.Common.Args[0]
+				fromStore := dependsOn(recv, func(v ssa.Value) bool {
+					cc, ok := v.(*ssa.Call)
+					return ok && strings.HasSuffix(calleeName(&cc.Call), "session.Store).Get")
+				}) != nil
+				if !fromStore {
+					continue // a session owned by the session middleware is saved by that middleware
+				}
+				n++
+				isSave := func(in ssa.Instruction) bool {
+					ci, ok := in.(ssa.CallInstruction)
+					return ok && strings.HasSuffix(calleeName(ci.Common()), "session.Session).Save") && stripValue(ci.Common().Args[0]) == stripValue(recv)
+				}
+				_, hit := reach(pointAfter(c.Instr), isReturn, nil, isSave)
+				r.check(hit == nil, fmt.Sprintf("%s:%s-then-Save", short(f.String()), short(c.Name)), r.pos(c.Instr), "every path from the change to return saves that session",
+					"a session taken from the store is changed and not saved on some path: the token that was issued / consumed / deleted stays as it was in the store — a deleted or used token is accepted again")
+			}
+		})
+		r.atLeast("store-session mutations", n, 2)
 	})
 }
